@@ -10,6 +10,7 @@ import Y0.Lemmas.PrintEvalExpr
 import Y0.Lemmas.PrintDenEval
 import Y0.Lemmas.PrintBalanced
 import Y0.Lemmas.PrintClosed
+import Y0.Lemmas.PrintBuilders
 
 namespace Y0
 namespace C12
@@ -112,11 +113,14 @@ theorem parse_print_total (lt : Expr → Expr → Bool) (e : Expr) (hb : built l
 is built again, so the three clauses above apply to it.  The sort order only has to be asymmetric (`asymm_exprLt`:
 the pinned `_get_key` order is).
 
--- OPEN: built_closed_builders — the same for the leaf builders: `eval lt a = .ok (.expr (.prob pop c p))` (an application
---   of `P` / `P[…]` / `PP[…]` / `Q[…]` to arguments that mention each name once) implies `built lt (.prob pop c p)`.
---   Needs: `sortBy` output is name-increasing when the names are distinct.  Until then this part of "every expression
---   built through the public operators is `built`" is decided by the model on every Python-built object of every run
---   (correspondence stream `domain`). -/
+-- OPEN: built_of_eval — the ONE statement over construction syntax trees,
+--   `NamesOnce a → eval lt a = .ok (.expr e) → built lt e`,
+--   i.e. the composition of the closure theorems below along `PyEval.eval`'s dispatch (call / subscript / operators),
+--   with "each distribution, subscript list, range and Q-(co)domain mentions a name once" stated on the syntax tree.
+--   Every ingredient is proved: variables (`canon_closed_sign`, `canon_closed_at`), `P`/`PP` with and without
+--   `[…]` (`built_closed_P`, `built_closed_P_ivs`), `Q[…]` (`built_closed_Q`), `Sum[…]`, `*`, `/`.  Until the composition
+--   is proved, "Python-built objects are `built`" is also decided by the model on every Python-built object of every
+--   run (correspondence stream `domain`). -/
 
 theorem built_closed_mul (lt : Expr → Expr → Bool) (hasym : Asymm lt) (a b c : Expr) (ha : built lt a = true)
     (hb : built lt b = true) (hc : PyEval.mul lt a b = .ok c) : built lt c = true :=
@@ -130,6 +134,38 @@ theorem built_closed_sum (lt : Expr → Expr → Bool) (e c : Expr) (rs : List V
     (hinc : incBy Var.name rs = true) (hplain : rs.all plainVar = true) (hc : PyEval.sumSafe e rs = .ok c) :
     built lt c = true :=
   built_sumSafe lt e c rs he hinc hplain hc
+
+/-- `+v`, `-v`, `~v` of a canonical variable is canonical -/
+theorem canon_closed_sign (op : UOp) (v : Var) (h : canonVar v = true) : canonVar (PyEval.unopVar op v) = true :=
+  canonVar_unop op v h
+
+/-- `v @ args` of a canonical variable is canonical when old and new subscripts have pairwise distinct names -/
+theorem canon_closed_at (v r : Var) (args : List Var) (hv : canonVar v = true)
+    (hn : (v.ivs.map Iv.name ++ args.map Var.name).Nodup) (h : PyEval.varIntervene v args = .ok r) :
+    canonVar r = true ∧ r.name = v.name :=
+  canonVar_varIntervene v r args hv hn h
+
+/-- `P(args…)` / `PP[pop](args…)`: canonical arguments with pairwise distinct names give a built probability -/
+theorem built_closed_P (lt : Expr → Expr → Bool) (pop : Option Var) (args : List Val) (e : Expr)
+    (hcanon : ∀ v ∈ argVars args, canonVar v = true) (hnod : ((argVars args).map Var.name).Nodup)
+    (hpop : canonPop pop = true) (h : PyEval.probSafe pop none args = .ok (.expr e)) : built lt e = true :=
+  built_probSafe_plain lt pop args e hcanon hnod hpop h
+
+/-- `P[ivs](args…)` / `PP[pop][ivs](args…)`: moreover the new subscripts have pairwise distinct, fresh names -/
+theorem built_closed_P_ivs (lt : Expr → Expr → Bool) (pop : Option Var) (args : List Val) (ivs : Val) (is : List Var)
+    (e : Expr) (hcanon : ∀ v ∈ argVars args, canonVar v = true) (hnod : ((argVars args).map Var.name).Nodup)
+    (hpop : canonPop pop = true) (hivs : PyEval.hintVars ivs = .ok is) (hisN : (is.map Var.name).Nodup)
+    (hfresh : ∀ v ∈ argVars args, ∀ i ∈ v.ivs, ∀ w ∈ is, i.name ≠ w.name)
+    (h : PyEval.probSafe pop (some ivs) args = .ok (.expr e)) : built lt e = true :=
+  built_probSafe_ivs lt pop args ivs is e hcanon hnod hpop hivs hisN hfresh h
+
+/-- `Q[cod](dom…)`: non-empty domain and codomain of canonical variables with pairwise distinct names -/
+theorem built_closed_Q (lt : Expr → Expr → Bool) (cod : Val) (args : List Val) (cs : List Var) (e : Expr)
+    (hcod : PyEval.hintVars cod = .ok cs) (hcne : cs ≠ []) (hcN : (cs.map Var.name).Nodup)
+    (hcc : ∀ v ∈ cs, canonVar v = true) (hcanon : ∀ v ∈ argVars args, canonVar v = true)
+    (hnod : ((argVars args).map Var.name).Nodup) (hane : argVars args ≠ [])
+    (h : PyEval.qSafe cod args = .ok (.expr e)) : built lt e = true :=
+  built_qSafe lt cod args cs e hcod hcne hcN hcc hcanon hnod hane h
 
 /-- the order of the pinned `_get_key` is asymmetric, so the closure theorems apply to it -/
 theorem pinned_order_asymm : Asymm PyEval.exprLt := asymm_exprLt
